@@ -10,6 +10,40 @@ CHECKS = {
         'ref': 'DESIGN.md section 3 C01', 'note': NOTE_COMMON,
         'technique': 'deterministic simulation: seeded scheduler + reference decoder oracle over the write callback',
     },
+    'C02': {
+        'text': 'Seeded search over corrupted uplink byte streams (bit flips, dropped/inserted bytes, truncation, stray and duplicate delimiters, noise) and every '
+                'chunking across read polls, plus loop-back of the library\'s own downlink; the bytes actually delivered are decoded by the independent reference '
+                'codec into GOOD / BAD-CRC / UNSPECIFIED frames and the messages read through bidib_read_message must equal the GOOD frames\' messages in order, exactly once.',
+        'ref': 'DESIGN.md section 3 C02', 'note': NOTE_COMMON,
+        'technique': 'deterministic simulation: transport-fault injection on the read callback + reference decoder oracle',
+    },
+    'C03': {
+        'text': 'Seeded search over request sequences, lost / duplicated / alternative / delayed answers, clock advances across the 2 s expiry and sender-vs-receiver '
+                'interleavings; a per-node reference model of outstanding response budget is driven by the same events: lenient-low for the <=48 safety check at every '
+                'wire emission, lenient-high (FIFO head matching + expiry) for never-stranded after each processed uplink message; FIFO vs real-time order of calls; '
+                'exactly-once after a heal phase.',
+        'ref': 'DESIGN.md section 3 C03', 'note': NOTE_COMMON,
+        'technique': 'deterministic simulation: fault injection on answers + simulated clock + flow-control reference model',
+    },
+    'C04': {
+        'text': 'Seeded search over node trees, nested stall/unstall sequences and concurrent senders; no message whose call was invoked after STALL=1 was known processed '
+                'may reach the wire before the matching STALL=0 starts to be delivered, unaffected nodes are served at once, and after all stalls are cleared everything is '
+                'transmitted exactly once in per-node order.',
+        'ref': 'DESIGN.md section 3 C04', 'note': NOTE_COMMON,
+        'technique': 'deterministic simulation: stall windows from SimBus events + wire oracle',
+    },
+    'C05': {
+        'text': 'Seeded schedules (PCT with 1-4 priority change points, random walk, sticky, starvation, function-entry preemption) of 2-16 sender tasks; the decoded wire '
+                'must carry consecutive per-node sequence numbers across the 255->1 wrap.',
+        'ref': 'DESIGN.md section 3 C05', 'note': NOTE_COMMON,
+        'technique': 'deterministic simulation: seeded scheduler (PCT / random walk) + wire oracle',
+    },
+    'C12': {
+        'text': 'Hostile uplink streams (random, mutated, grammar-generated CRC-valid packets with adversarial length/address/type/field values, oversized frames) in debug and '
+                'normal mode against generated configurations, under ASan/UBSan with deterministic fill patterns; then a liveness probe: a known-good packet must still be processed.',
+        'ref': 'DESIGN.md section 3 C12', 'note': NOTE_COMMON,
+        'technique': 'deterministic simulation: line-noise / adversarial-frame injection + sanitizers + bounded-liveness probe',
+    },
 }
 
 NOT_APPLICABLE = {
